@@ -3,6 +3,7 @@ package main
 import (
 	"fmt"
 	"math/big"
+	"strings"
 
 	"verifharness/internal/impl"
 	"verifharness/internal/items"
@@ -111,11 +112,7 @@ func cmdCallGas(args []string) error {
 			}
 		}
 	}
-	out := ""
-	for _, l := range lines {
-		out += l + "\n"
-	}
-	if err := writeFile(c.out, "cases.txt", out); err != nil {
+	if err := writeFile(c.out, "cases.txt", strings.Join(lines, "\n")+"\n"); err != nil {
 		return err
 	}
 	if err := writeJSON(c.out, "cases.json", cases); err != nil {
